@@ -227,6 +227,18 @@ pub struct Dl {
     pub typ: u64,
     /// an earlier transfer of another body on the same key, abandoned after this many exchanges
     pub prior: usize,
+    pub reqopts: u8,           // options the client repeats on every request of the transfer (see req_extra)
+}
+
+/// options a client may carry on every request of a transfer, follow-up blocks included: none of them is
+/// part of the cache key, none of them changes how blocks are served
+fn req_extra(set: u8) -> Vec<(u16, Vec<u8>)> {
+    match set {
+        1 => vec![(6, vec![])],                                   // Observe: register
+        2 => vec![(6, vec![1]), (17, vec![42])],                 // Observe: deregister, Accept
+        3 => vec![(5, vec![]), (15, b"q=1".to_vec()), (60, vec![1, 0])], // If-None-Match, Uri-Query, Size1
+        _ => vec![],
+    }
 }
 
 fn app_options(resp: &mut CoapResponse, optset: u8) {
@@ -277,7 +289,7 @@ pub fn download(out: &mut Out, start: Instant, d: &Dl, r: &mut Rng, xid: u64) {
         let mut b2: Option<(u16, bool, u8)> = None;
         for _ in 0..d.prior {
             mid = mid.wrapping_add(1);
-            let pkt = mkreq(&ReqSpec { code: 1, typ: d.typ, mid, tok: r.bytes(d.toklen), segs: &d.segs, b1: None, b2, pay: vec![], extra: vec![] });
+            let pkt = mkreq(&ReqSpec { code: 1, typ: d.typ, mid, tok: r.bytes(d.toklen), segs: &d.segs, b1: None, b2, pay: vec![], extra: req_extra(d.reqopts) });
             let (o, mut req) = h.ireq(out, ep, &pkt, &json!({"x": xid, "kind": "dl-prior"}));
             if o["k"] == "ok" && o["handled"] == false {
                 if let Some(resp) = req.response.as_mut() {
@@ -297,7 +309,7 @@ pub fn download(out: &mut Out, start: Instant, d: &Dl, r: &mut Rng, xid: u64) {
     loop {
         mid = mid.wrapping_add(1);
         let tl = if r.chance(1, 3) { r.below(d.toklen as u64 + 1) as usize } else { d.toklen };
-        let pkt = mkreq(&ReqSpec { code: 1, typ: d.typ, mid, tok: r.bytes(tl), segs: &d.segs, b1: None, b2: req_b2, pay: vec![], extra: vec![] });
+        let pkt = mkreq(&ReqSpec { code: 1, typ: d.typ, mid, tok: r.bytes(tl), segs: &d.segs, b1: None, b2: req_b2, pay: vec![], extra: req_extra(d.reqopts) });
         let (o, mut req) = h.ireq(out, ep, &pkt, &tag);
         if o["k"] != "ok" {
             aborted = "intercept_request failed";
@@ -504,7 +516,7 @@ pub fn rec_block2(args: &Args) {
             3 => r.below(if thorough { 20000 } else { 3000 }) as usize,
             _ => r.below(200) as usize,
         };
-        let mut d = Dl { body_len, m: 1152, first_szx: szx_pick, reduce: None, optset: r.below(6) as u8, toklen: r.below(9) as usize, segs: r.pick(&segs).clone(), typ: r.below(2), prior: 0 };
+        let mut d = Dl { body_len, m: 1152, first_szx: szx_pick, reduce: None, optset: r.below(6) as u8, toklen: r.below(9) as usize, segs: r.pick(&segs).clone(), typ: r.below(2), prior: 0, reqopts: r.below(5) as u8 };
         if r.chance(1, 4) {
             d.reduce = Some((r.range(1, 3) as usize, r.below(4) as u8));
         }
@@ -599,7 +611,7 @@ pub fn rec_budget(args: &Args) {
         for optset in 0..6u8 {
             let toklen = r.below(9) as usize;
             let sg = r.pick(&segs).clone();
-            let base = Dl { body_len: 0, m: 0, first_szx: None, reduce: None, optset, toklen, segs: sg.clone(), typ: 0, prior: 0 };
+            let base = Dl { body_len: 0, m: 0, first_szx: None, reduce: None, optset, toklen, segs: sg.clone(), typ: 0, prior: 0, reqopts: 0 };
             let ov = overhead_of(&base);
             let mut ms: Vec<usize> = vec![];
             for p in 0..7 {
@@ -623,7 +635,7 @@ pub fn rec_budget(args: &Args) {
                 let client: Option<u8> = match r.below(9) { 8 => None, s => Some(s as u8) };
                 let room = m - ov - 12;
                 let body_len = match r.below(3) { 0 => room.saturating_sub(1 + r.below(2) as usize), 1 => room + r.below(3) as usize, _ => 3 * room.min(300) + r.below(20) as usize };
-                let d = Dl { body_len, m, first_szx: client, reduce: None, optset, toklen, segs: sg.clone(), typ: 0, prior: 0 };
+                let d = Dl { body_len, m, first_szx: client, reduce: None, optset, toklen, segs: sg.clone(), typ: 0, prior: 0, reqopts: 0 };
                 xid += 1;
                 download(&mut out, start, &d, &mut r, xid);
             }
